@@ -23,6 +23,21 @@ type PwCase struct {
 	Via      string   `json:"via"` // stored (hash computed by the harness's own argon2 and written to the database) | api (PATCH /api/auth/change-password)
 	Password string   `json:"password"`
 	Tries    []string `json:"tries"`
+	// Spelling of the user name in the login requests: "" (as stored) | upper | title | mixed. User names are
+	// case-insensitive (the table's collation): every spelling is the same account, with the same one password.
+	Spelling string `json:"spelling,omitempty"`
+}
+
+func spell(user, how string) string {
+	switch how {
+	case "upper":
+		return strings.ToUpper(user)
+	case "title":
+		return strings.ToUpper(user[:1]) + user[1:]
+	case "mixed":
+		return user[:1] + strings.ToUpper(user[1:2]) + user[2:]
+	}
+	return user
 }
 
 func setStored(user, pw string, salt byte) error {
@@ -41,8 +56,10 @@ func setStored(user, pw string, salt byte) error {
 var subPw = ev.Register("password-exactness",
 	"a user's password is set to a generated string (1-1000 bytes around the 55/56/64/72/73/128-byte marks of common KDF limits; ASCII, spaces, multi-byte runes, NUL) either by writing a hash computed with the harness's own argon2 into the database or through PATCH /api/auth/change-password; then logins with the exact string and with near misses (cut at 72 / 64 / 56 bytes, last rune dropped, one byte appended, other tail behind a shared prefix, case of one letter flipped, trailing space, cut at the first NUL, empty); oracle: exactly the set string obtains a session (200 + cookie), every other string gets none; non-trivial = at least one near miss differs from the password only beyond byte 56; distinct by (route, length class, near-miss kinds)",
 	func(c PwCase, o *ev.Obs) *ev.Failure {
-		const user = "carol"
+		const account = "carol"
+		user := spell(account, c.Spelling)
 		o.Class("via:" + c.Via)
+		o.Class("spelling:" + c.Spelling)
 		switch n := len(c.Password); {
 		case n > 72:
 			o.Class("len:>72")
@@ -53,11 +70,11 @@ var subPw = ev.Register("password-exactness",
 		}
 		switch c.Via {
 		case "stored":
-			if err := setStored(user, c.Password, 7); err != nil {
+			if err := setStored(account, c.Password, 7); err != nil {
 				return ev.Failf("auth.harness", "store: %v", err)
 			}
 		case "api":
-			if err := setStored(user, "tmp-password", 9); err != nil {
+			if err := setStored(account, "tmp-password", 9); err != nil {
 				return ev.Failf("auth.harness", "store: %v", err)
 			}
 			st, sid := login(user, "tmp-password")
@@ -78,6 +95,17 @@ var subPw = ev.Register("password-exactness",
 					s.Destroy()
 				}
 				return nil
+			}
+		}
+		if c.Via == "api" {
+			// the password that was replaced is no password any more, under any spelling of the name
+			for _, u := range []string{user, account} {
+				if st, sid := login(u, "tmp-password"); st == 200 || sid != "" {
+					if s, ok := auth.GetSession(sid); ok {
+						s.Destroy()
+					}
+					return ev.Failf("login.invalid-accepted:replaced-password", "after change-password the replaced password still obtains a session when the user name is spelled %q (status %d)", u, st)
+				}
 			}
 		}
 		st, sid := login(user, c.Password)
@@ -165,7 +193,8 @@ func nearMisses(p string) []string {
 func TestPasswordExactness(t *testing.T) {
 	subPw.CheckSalt(t, 11, ev.N(16, 600), func(t *rapid.T) PwCase {
 		p := drawPassword(t)
-		c := PwCase{Via: rapid.SampledFrom([]string{"stored", "api", "api"}).Draw(t, "via"), Password: p}
+		c := PwCase{Via: rapid.SampledFrom([]string{"stored", "api", "api"}).Draw(t, "via"), Password: p,
+			Spelling: rapid.SampledFrom([]string{"", "", "upper", "title", "mixed"}).Draw(t, "spelling")}
 		all := nearMisses(p)
 		for _, i := range rapid.SliceOfNDistinct(rapid.IntRange(0, len(all)-1), 1, 5, rapid.ID[int]).Draw(t, "tries") {
 			c.Tries = append(c.Tries, all[i])
